@@ -145,4 +145,127 @@ theorem pcContains_double (cfg : Cfg) (h : Hdr) (v : PVal) (ht : h.type = .doubl
       simp only [asFloat, assertBounds_fin hb hl hu hx, isNumber, numOf, ratOf, withinBounds_eq hb hl hu]
       by_cases hc : (decide (l ≤ q) && decide (q ≤ u)) = true <;> simp [hc]
 
+theorem b2i_cast (b : Bool) : ((b2i b : Int) : Rat) = b2r b := by cases b <;> simp [b2i, b2r] <;> rfl
+
+theorem b2r_den (b : Bool) : (b2r b).den = 1 := by cases b <;> simp [b2r] <;> rfl
+
+theorem pcContains_integer (cfg : Cfg) (h : Hdr) (v : PVal) (ht : h.type = .integer) (hwf : h.wf = true) :
+    pcContains cfg h v =
+      if (v = .flt .pinf ∨ v = .flt .ninf) ∧ cfg.intInfGuard = false then .error .overflow
+      else .ok (typeOK h v && inDomain h v) := by
+  obtain ⟨lo, hi, l, u, hb, hl, hu⟩ := wf_bounds (Or.inr ht) hwf
+  unfold pcContains assertFeasible typeOK inDomain
+  rw [ht, act_int cfg]
+  cases v with
+  | str s => simp [isNumber, numOf]
+  | int i =>
+    have hx : ratOf (.int i) = some (i : Rat) := rfl
+    simp only [asInt, assertBounds_fin hb hl hu hx, isNumber, numOf, ratOf, withinBounds_eq hb hl hu,
+      isIntegralQ, Rat.den_intCast]
+    by_cases hc : (decide (l ≤ (i : Rat)) && decide ((i : Rat) ≤ u)) = true <;> simp [hc]
+  | bool b =>
+    have hx : ratOf (.int (b2i b)) = some (b2r b) := by simp [ratOf, b2i_cast]
+    simp only [asInt, assertBounds_fin hb hl hu hx, isNumber, numOf, ratOf, withinBounds_eq hb hl hu,
+      isIntegralQ, b2r_den]
+    by_cases hc : (decide (l ≤ b2r b) && decide (b2r b ≤ u)) = true <;> simp [hc]
+  | flt x =>
+    cases x with
+    | nan => simp [isNumber, numOf]
+    | pinf => cases hg : cfg.intInfGuard <;> simp [isNumber, numOf, ratOf, hg]
+    | ninf => cases hg : cfg.intInfGuard <;> simp [isNumber, numOf, ratOf, hg]
+    | fin q =>
+      by_cases hd : q.den = 1
+      · have hx : ratOf (.int (truncQ q)) = some q := by simp [ratOf, (intCast_truncQ_eq_iff q).mpr hd]
+        simp only [hd, if_true, asInt, assertBounds_fin hb hl hu hx, isNumber, numOf, ratOf,
+          withinBounds_eq hb hl hu, isIntegralQ]
+        by_cases hc : (decide (l ≤ q) && decide (q ≤ u)) = true <;> simp [hc]
+      · simp [hd, isNumber, numOf, ratOf, isIntegralQ]
+
+theorem any_congr' {α : Type} {l : List α} {p q : α → Bool} (h : ∀ x ∈ l, p x = q x) : l.any p = l.any q := by
+  induction l with
+  | nil => rfl
+  | cons a as ih =>
+    simp only [List.any_cons, h a (List.mem_cons_self ..)]
+    rw [ih (fun x hx => h x (List.mem_cons_of_mem _ hx))]
+
+theorem pcContains_discrete (cfg : Cfg) (h : Hdr) (v : PVal) (ht : h.type = .discrete) (hwf : h.wf = true) :
+    pcContains cfg h v = .ok (typeOK h v && inDomain h v) := by
+  unfold Hdr.wf at hwf; rw [ht] at hwf; simp only [List.all_eq_true, Option.isSome_iff_exists] at hwf
+  have key : ∀ q : Rat, (h.feasible.any fun f => pyEq f (.flt (.fin q))) =
+      (h.feasible.any fun f => decide (ratOf f = some q)) := by
+    intro q
+    apply any_congr'
+    intro f hf
+    obtain ⟨x, hx⟩ := hwf f hf
+    have hq : ratOf (.flt (.fin q)) = some q := rfl
+    rw [pyEq_ratOf hx hq, hx]
+    simp
+  have keyInf : ∀ x : Flt, (x = .pinf ∨ x = .ninf) → (h.feasible.any fun f => pyEq f (.flt x)) = false := by
+    intro x hx
+    rw [List.any_eq_false]
+    intro f hf
+    obtain ⟨y, hy⟩ := hwf f hf
+    have ny := numOf_of_ratOf hy
+    rcases hx with rfl | rfl <;> cases f with
+    | str s => simp [ratOf] at hy
+    | int i => simp [pyEq, numOf, Flt.beq]
+    | bool b => simp [pyEq, numOf, Flt.beq]
+    | flt x => (simp only [numOf, Option.some.injEq] at ny; subst ny; simp [pyEq, numOf, Flt.beq])
+  unfold pcContains assertFeasible typeOK inDomain
+  rw [ht, act_num cfg .discrete (Or.inr rfl)]
+  cases v with
+  | str s => simp [isNumber, numOf]
+  | int i =>
+    have r1 : ratOf (PVal.int i) = some (i : Rat) := rfl
+    simp only [asFloat, assertInFeasible, key, isNumber, numOf, r1]
+    generalize (h.feasible.any fun f => decide (ratOf f = some (i : Rat))) = bb
+    cases bb <;> simp
+  | bool b =>
+    have r1 : ratOf (PVal.bool b) = some (b2r b) := rfl
+    simp only [asFloat, assertInFeasible, key, isNumber, numOf, r1]
+    generalize (h.feasible.any fun f => decide (ratOf f = some (b2r b))) = bb
+    cases bb <;> simp
+  | flt x =>
+    cases x with
+    | nan => simp [isNumber, numOf]
+    | pinf => simp [asFloat, assertInFeasible, keyInf .pinf (Or.inl rfl), isNumber, numOf, ratOf]
+    | ninf => simp [asFloat, assertInFeasible, keyInf .ninf (Or.inr rfl), isNumber, numOf, ratOf]
+    | fin q =>
+      have r1 : ratOf (PVal.flt (.fin q)) = some q := rfl
+      simp only [asFloat, assertInFeasible, key, isNumber, numOf, r1]
+      generalize (h.feasible.any fun f => decide (ratOf f = some q)) = bb
+      cases bb <;> simp
+
+theorem pcContains_categorical (cfg : Cfg) (h : Hdr) (v : PVal) (ht : h.type = .categorical) (hwf : h.wf = true) :
+    pcContains cfg h v = .ok (typeOK h v && inDomain h v) := by
+  unfold Hdr.wf at hwf; rw [ht] at hwf; simp only [List.all_eq_true] at hwf
+  have key : ∀ s : String, (h.feasible.any fun f => pyEq f (.str s)) =
+      (h.feasible.any fun f => decide (f = .str s)) := by
+    intro s
+    apply any_congr'
+    intro f hf
+    have := hwf f hf
+    cases f with
+    | str t => simp only [pyEq]; by_cases hts : t = s <;> simp [hts]
+    | _ => simp [isStr] at this
+  unfold pcContains assertFeasible typeOK inDomain
+  rw [ht, act_cat cfg]
+  cases v with
+  | str s =>
+    simp only [asStr, assertInFeasible, key, isStr, isBool, strForm]
+    generalize (h.feasible.any fun f => decide (f = .str s)) = bb
+    cases bb <;> simp
+  | bool b =>
+    cases b <;> simp only [asStr, assertInFeasible, key, isStr, isBool, strForm, TRUE_VALUE, FALSE_VALUE]
+    · by_cases hc : (h.feasible.any fun f => decide (f = .str "False")) = true <;> simp [hc]
+    · by_cases hc : (h.feasible.any fun f => decide (f = .str "True")) = true <;> simp [hc]
+  | int i => simp [isStr, isBool]
+  | flt x => simp [isStr, isBool]
+
+theorem pcContains_custom (cfg : Cfg) (h : Hdr) (v : PVal) (ht : h.type = .custom) :
+    pcContains cfg h v = .error .runtime := by
+  unfold pcContains assertFeasible
+  rw [ht]
+  simp [assertCorrectType, PType.isNumeric]
+
 end VizierModel.Space
